@@ -158,6 +158,18 @@ def check_c19(idx: Index, tier: str, res: Result) -> None:
                   key="RECORD/FileAdapter._save_instance/%s" % k)
     res.check("RECORD", "session state is pickled into the record", "state" in written and "dumps" in src(written["state"]), sv.loc(), sv.qual,
               src(written.get("state", ast.Constant(0)))[:60], "the session state is not serialised into the record", key="RECORD/FileAdapter/state-dumps")
+    # both layers (record, embedded session state) are written and read with the same codec
+    def codecs(fi: FuncInfo, names) -> List[str]:
+        return [(dotted(c.func.value) or "?") for c in sorted(iter_calls(fi.node), key=lambda c: (c.lineno, c.col_offset))
+                if call_name(c) in names and isinstance(c.func, ast.Attribute)]
+    wr = codecs(sv, ("dumps",))
+    rd = codecs(ld, ("loads",))
+    ok = len(wr) == 2 and len(rd) == 2 and set(wr) == set(rd) and len(set(wr)) == 1
+    res.check("RECORD", "record and embedded state are read with the codec they were written with", ok, ld.loc(), ld.qual,
+              "write: %s.dumps / read: %s.loads" % (wr, rd),
+              "FileAdapter writes with %s.dumps but reads with %s.loads: what the writer encodes specially (jsonpickle back-references "
+              "for an object logged more than once, tuples, non-string keys) is not decoded on restore" % (sorted(set(wr)), sorted(set(rd))),
+              key="RECORD/FileAdapter/codec")
     paths = []
     for fi in (sv, ld, dl):
         js = [c for c in iter_calls(fi.node) if call_name(c) == "join" and (call_recv(c) or "").endswith("path")]
@@ -331,6 +343,20 @@ def check_c20(idx: Index, tier: str, res: Result) -> None:
     rss = idx.func(RUNNER, "SdRunner.run_scenario_step")
     fresh = [g for g in walk_no_nested(rss.node) if isinstance(g, ast.If) and "sd_simulation is None" in src(g.test)]
     res.ob("REPLAY", "run_scenario_step rebuilds the simulation when none is live (%d site)" % len(fresh), bool(fresh), nontrivial=False)
+    # the simulation rebuilt after a restore continues the *scenario's* run: same start time, stop time and dt as before the crash
+    for g in fresh:
+        crs = [c for b in g.body for c in iter_calls(b) if call_name(c) == "change_runspecs"]
+        cprm = params(idx.func(SDSIM, "SdSimulation.change_runspecs").node)[1:]
+        for c in crs:
+            kw = dict(zip(cprm, [src(a) for a in c.args]))
+            kw.update({k.arg: src(k.value) for k in c.keywords})
+            ok = all(kw.get(r_, "") == "sc." + r_ for r_ in ("starttime", "stoptime", "dt"))
+            res.check("REPLAY", "a rebuilt simulation keeps the scenario's run specs", ok, rss.loc(c), rss.qual, src(c),
+                      "the simulation rebuilt when no live one exists (the first step after a restart) is given %s: it no longer integrates "
+                      "from the scenario's start time, so every stock restarts from its initial value at the current step" % kw,
+                      key="REPLAY/SdRunner.run_scenario_step/rebuilt-runspecs")
+        res.check("REPLAY", "the rebuild applies the scenario's run specs", bool(crs), rss.loc(g), rss.qual, "change_runspecs(...)",
+                  "the rebuilt simulation is not given the scenario's run specs", key="REPLAY/SdRunner.run_scenario_step/no-runspecs")
 
     # ---- (4) worker thread exceptions -----------------------------------------------------------------------------------------------
     sim = idx.try_func(SDSIM, "SdSimulation.__simulate")
